@@ -11,6 +11,12 @@
      se LAYOUT STRUCT|N     sub_enc_u32             -> ERR | HEX
      ok LAYOUT STRUCT       raw_layout_okb, raw_te_ok -> two 0/1 flags
      rf STRUCTFIELD FACE    realize_face of one field -> HEX
+     xb HEX                 dec_dictcoll (ExtraParams shape, raw entries) -> ERR | V DICT REST
+     xd HEX                 sub_dec_dictcoll        -> ERR | N | V DICT
+     xw HEX                 dec_entries (count byte, then the entries as they are on the wire, before dict()) -> ERR | V DICT REST
+     xe DICT|N              sub_enc_dictcoll        -> ERR | HEX
+     xo DICT                raw_dict_ok             -> 0/1
+   DICT    type:HEX,type:HEX,...  "{}" for the empty dict
    LAYOUT  first,optional,size/first,optional,size/...      HEX  hex digits, "-" for empty
    FACES   1.2.3, "e" for the empty tuple
    STRUCT  field;field;...   field = "~" (None) | HEX|FACES=HEX|FACES=HEX  (default, then items in dict order) *)
@@ -45,6 +51,13 @@ let struct_of_text (s : string) = List.map field_of_text (split ';' s)
 let text_of_struct vs = String.concat ";" (List.map text_of_field vs)
 let tev_of_text (s : string) = if s = "N" then None else Some (struct_of_text s)
 let b2s b = if b then "1" else "0"
+let dict_of_text (s : string) =
+  if s = "{}" then [] else
+    List.map (fun e -> match split ':' e with
+        | [k; v] -> (n_of_int (int_of_string k), bytes_of_hex v)
+        | _ -> failwith ("bad dict entry " ^ e)) (split ',' s)
+let text_of_dict d =
+  if d = [] then "{}" else String.concat "," (List.map (fun (k, v) -> string_of_int (int_of_n k) ^ ":" ^ hex_of_bytes v) d)
 
 let handle (line : string) : string =
   match words line with
@@ -95,6 +108,27 @@ let handle (line : string) : string =
     (match field_of_text s with
      | None -> "ERR"
      | Some fv -> hex_of_bytes (realize_face fv (n_of_int (int_of_string f))))
+  | ["xb"; h] ->
+    (match dec_dictcoll N.eqb raw_entry_codec (bytes_of_hex h) with
+     | None -> "ERR"
+     | Some (d, r) -> "V " ^ text_of_dict d ^ " " ^ hex_of_bytes r)
+  | ["xw"; h] ->
+    (match bytes_of_hex h with
+     | [] -> "ERR"
+     | n :: r ->
+       (match dec_entries raw_entry_codec (nat_of_int (int_of_n n)) r with
+        | None -> "ERR"
+        | Some (es, r') -> "V " ^ text_of_dict es ^ " " ^ hex_of_bytes r'))
+  | ["xd"; h] ->
+    (match sub_dec_dictcoll N.eqb raw_entry_codec (bytes_of_hex h) with
+     | None -> "ERR"
+     | Some None -> "N"
+     | Some (Some d) -> "V " ^ text_of_dict d)
+  | ["xe"; s] ->
+    (match sub_enc_dictcoll raw_entry_codec (if s = "N" then None else Some (dict_of_text s)) with
+     | None -> "ERR"
+     | Some b -> hex_of_bytes b)
+  | ["xo"; s] -> b2s (raw_dict_ok (dict_of_text s))
   | _ -> "BADLINE"
 
 let () =
